@@ -219,6 +219,34 @@ mod h {
     into_resp_ok!(into_resp_ok_1, 1, 3);
     into_resp_ok!(into_resp_ok_2, 2, 4);
 
+    /// Order of several attributes and events is preserved (no sub-messages).
+    #[kani::proof]
+    #[kani::unwind(4)]
+    #[kani::stub(std::backtrace::Backtrace::capture, bt_disabled)]
+    #[kani::stub(alloc::fmt::format, fmt_stub)]
+    fn into_resp_order() {
+        let s: [u8; 6] = kani::any();
+        kani::assume(s[0] < 128 && s[1] < 128 && s[2] < 128 && s[3] < 128 && s[4] < 128 && s[5] < 128);
+        kani::assume(s[0] != b'_' && s[2] != b'_');
+        let r = Response::<Empty>::new()
+            .add_attribute(one_char(s[0]), one_char(s[1]))
+            .add_attribute(one_char(s[2]), one_char(s[3]))
+            .add_event(Event::new(one_char(s[4])))
+            .add_event(Event::new(one_char(s[5])));
+        let out: StdResult<Response<MyMsg>> = r.into_response();
+        match &out {
+            Ok(o) => {
+                assert!(o.attributes.len() == 2 && o.events.len() == 2 && o.messages.is_empty() && o.data.is_none());
+                assert!(str_eq(&o.attributes[0].key, &one_char(s[0])) && str_eq(&o.attributes[0].value, &one_char(s[1])), "first attribute first");
+                assert!(str_eq(&o.attributes[1].key, &one_char(s[2])) && str_eq(&o.attributes[1].value, &one_char(s[3])), "second attribute second");
+                assert!(str_eq(&o.events[0].ty, &one_char(s[4])) && str_eq(&o.events[1].ty, &one_char(s[5])), "events in order");
+            }
+            Err(_) => assert!(false),
+        }
+        kani::cover!(s[0] != s[2] && s[4] != s[5], "distinguishable attributes and events");
+        core::mem::forget(out);
+    }
+
     /// Error path: a response whose only sub-message is custom-typed => Err (and, the result being a
     /// `StdResult`, no partial response exists).
     #[kani::proof]
